@@ -123,6 +123,7 @@ pub fn drive(name: &str, out: &str, args: &[String]) {
         "curve" => curve_driver(out, seed, arg(args, 1, 1000)),
         "integ" => integ_driver(out, seed, arg(args, 1, 10000)),
         "caps" => caps_driver(out, seed, arg(args, 1, 200)),
+        "struct" => struct_driver(out, seed, arg(args, 1, 100)),
         _ => {
             eprintln!("unknown driver {}", name);
             std::process::exit(2);
@@ -1078,6 +1079,66 @@ fn caps_driver(out: &str, seed: u64, n: u64) {
                 _ => json!({"op":"accrue","bank":bank}),
             };
             r.act(a);
+        }
+    }
+    r.finish();
+}
+
+// ------------------------------------------------------------------------------------------------
+// struct driver (C16): positions opened by liquidation in re-tagged banks (integration / staked tags),
+// caps on integration positions, tag mixing, slot exhaustion
+// ------------------------------------------------------------------------------------------------
+fn struct_driver(out: &str, seed: u64, n: u64) {
+    let mut rng = StdRng::seed_from_u64(seed);
+    let mut r = Recorder::new(&format!("{}/struct.trace", out), load_setup("struct"));
+    for k in 0..n {
+        r.begin(&[]);
+        let liq = |b: &str, amt: u64| json!({"op":"liquidate","liquidator":"Q","liquidatee":"L","asset_bank":b,"liab_bank":"D","amount":amt});
+        if k % 2 == 0 {
+            // integration tags: 9 collateral banks re-tagged with a random mix of Kamino / Drift / Solend tags
+            let mut order: Vec<usize> = (1..=9).collect();
+            for i in (1..order.len()).rev() {
+                order.swap(i, rng.gen_range(0..=i));
+            }
+            let ntag = rng.gen_range(7..=9);
+            for (j, i) in order.iter().enumerate() {
+                if j < ntag {
+                    r.act(json!({"op":"configure_bank","bank":format!("T{}", i),"cfg":{"asset_tag": *pick(&mut rng, &[3u64, 3, 4, 5])}}));
+                }
+            }
+            for i in 1..=9 {
+                r.act(json!({"op":"set_fixed_price","bank":format!("T{}", i),"price":"3/4"}));
+            }
+            // the liquidator may already hold a few ordinary positions
+            for _ in 0..rng.gen_range(0..3) {
+                r.act(json!({"op":"deposit","acct":"Q","bank":"T10","amount":1000}));
+            }
+            for i in order.iter() {
+                r.act(liq(&format!("T{}", i), *pick(&mut rng, &[1u64, 1000, 50_000])));
+            }
+            // closing one and opening another
+            let b = format!("T{}", order[0]);
+            r.act(json!({"op":"withdraw","acct":"Q","bank":b,"amount":0,"all":true}));
+            r.act(liq(&format!("T{}", order[8]), 1000));
+            r.act(json!({"op":"pulse_health","acct":"Q"}));
+        } else {
+            // staked vs default mixing through the liquidation path
+            let staked = format!("T{}", rng.gen_range(1..=9));
+            r.act(json!({"op":"configure_bank","bank":staked,"cfg":{"asset_tag":2}}));
+            for i in 1..=9 {
+                r.act(json!({"op":"set_fixed_price","bank":format!("T{}", i),"price":"3/4"}));
+            }
+            if rng.gen_bool(0.7) {
+                r.act(json!({"op":"deposit","acct":"Q","bank":"T10","amount":1000})); // default-class position on the liquidator
+            }
+            r.act(liq(&staked, 1000));
+            let other = format!("T{}", rng.gen_range(1..=9));
+            r.act(liq(&other, 1000));
+            r.act(liq(&staked, 1000));
+            // the user side: deposits into a default bank while holding the (now staked-tagged) bank's position keep their tags
+            r.act(json!({"op":"deposit","acct":"L","bank":"T10","amount":5}));
+            r.act(json!({"op":"deposit","acct":"Q","bank":staked.clone(),"amount":5}));
+            r.act(json!({"op":"borrow","acct":"Q","bank":other.clone(),"amount":5}));
         }
     }
     r.finish();
